@@ -330,6 +330,10 @@ func runCheck(id, tier string, seed int) int {
 		results = append(results, res)
 		unitOf[res] = pu
 		for _, o := range res.Obls {
+			if o.Group != "canary" && (!groupClaimed(pu, o.Group) || matchesAny(o.Name, pu.Unclaimed)) {
+				o.Result, o.Solver = "skipped", "unclaimed"
+				continue
+			}
 			jobs = append(jobs, solveJob{o, res.Ctx})
 		}
 	}
@@ -412,7 +416,7 @@ func runCheck(id, tier string, seed int) int {
 			suffix := writeReplay(eng, replay, id, res, o)
 			violLines = append(violLines, fmt.Sprintf("VIOLATION property=%s replay=%s obligation=%s result=%s%s", id, replay, o.Name, o.Result, suffix))
 		}
-		if exitCanaries > 0 && exitUnsat == exitCanaries {
+		if exitCanaries > 0 && exitUnsat == exitCanaries && fe.Obligations == fe.Discharged {
 			canaryBad = append(canaryBad, fe.Func+"/canary (no reachable exit)")
 		}
 		if pu.MinObls > 0 && claimedCount < pu.MinObls {
